@@ -563,7 +563,7 @@ def _literals(ctx, n):
             b = P_.compile_script(src)
         except BaseException as ex:
             ctx.outcome('literal:rejected')
-            if where == 'stack' and src.startswith(('OP_PUSH d', 'push d')) and len(e) <= MAX_ITEM:
+            if where == 'stack' and src.startswith(('OP_PUSH d', 'push d')) and len(e) <= 1025:
                 ctx.violation({'op': 'PUSH', 'clause': 'decimal literal is accepted'}, f'{src[:60]}: {ex!r}')
             continue
         if where == 'lv1':
@@ -615,7 +615,10 @@ def blocks(tier, seed):
                     'host int<->str digit limit at its default', nshards=7))
     lits = sorted(set(boundary_ints(8 * 255 - 8)) | {10 ** k + d for k in (15, 16, 17, 18, 19, 20, 30, 100, 300) for d in (-1, 0, 1, 7)} |
                   {-(10 ** k + 7) for k in (16, 17, 30)} | {(1 << 53) + d for d in range(-3, 12)} | {-((1 << 53) + d) for d in range(-3, 12)} |
-                  {(1 << 64) + 3, (1 << 63) + 5, 3 * (1 << 60) + 1, (1 << 200) + 12345})
+                  {(1 << 64) + 3, (1 << 63) + 5, 3 * (1 << 60) + 1, (1 << 200) + 12345} |
+                  # encodings of exactly w bytes around the size classes of the push instructions (255 | 256, and the default item limit)
+                  {v for w in (254, 255, 256, 257, 258, 1023, 1024, 1025) for v in
+                   ((1 << (8 * w - 2)) + 1, -(1 << (8 * w - 2)) - 1, (1 << (8 * w - 1)) - 1, -(1 << (8 * w - 1)))})
     bl.append(Block('decimal_literals_through_the_compiler', lits, _literals,
                     'PUSH / PUSH1 / PUSH2 / DIV_INT / MOD_INT / variable assignment with decimal literals at every encoding boundary, around 2^53 '
                     '(each of 2^53-3..2^53+11), powers of ten +-1 up to 10^300', nshards=32))
